@@ -1,150 +1,701 @@
+(* Proofs about the transition system of Warc/ParallelDefs.v (warc_parallel). *)
 From PP Require Import Warc.ParallelDefs.
 From Coq Require Import Permutation Lia.
 
-Definition pall (s : pstate) : list rec :=
-  concat (p_inputs s) ++ p_queue s ++ concat (p_flight s) ++ p_out s.
+(* ------------------------------------------------------------ lists *)
+Definition sumf {A} (f : A -> nat) (l : list A) : nat := list_sum (map f l).
 
-Lemma concat_set_nth_cons {A} (l : list (list A)) : forall i r rest,
-  nth i l [] = r :: rest -> Permutation (r :: concat (set_nth l i rest)) (concat l).
+Lemma sumf_nil {A} (f : A -> nat) : sumf f [] = 0.
+Proof. reflexivity. Qed.
+Lemma sumf_cons {A} (f : A -> nat) a l : sumf f (a :: l) = f a + sumf f l.
+Proof. reflexivity. Qed.
+Lemma sumf_app {A} (f : A -> nat) a b : sumf f (a ++ b) = sumf f a + sumf f b.
+Proof. unfold sumf. rewrite map_app, list_sum_app. reflexivity. Qed.
+
+Lemma set_nth_split {A} (l : list A) : forall i a, nth_error l i = Some a ->
+  exists l1 l2, l = l1 ++ a :: l2 /\ forall x, set_nth l i x = l1 ++ x :: l2.
 Proof.
-  induction l as [|x l IH]; intros i r rest H.
-  - destruct i; discriminate.
-  - destruct i as [|i]; simpl in *.
-    + subst x. simpl. reflexivity.
-    + specialize (IH i r rest H).
-      apply Permutation_trans with (x ++ r :: concat (set_nth l i rest)).
-      * apply Permutation_middle.
-      * apply Permutation_app_head. exact IH.
+  induction l as [|y l IH]; intros i a H; destruct i as [|i]; simpl in H; try discriminate.
+  - inversion H; subst. exists [], l. split; reflexivity.
+  - destruct (IH i a H) as [l1 [l2 [E Hs]]]. exists (y :: l1), l2. split.
+    + simpl. rewrite <- E. reflexivity.
+    + intros x. simpl. rewrite Hs. reflexivity.
 Qed.
 
-Lemma concat_set_nth_snoc {A} (l : list (list A)) : forall i r, (i < length l)%nat ->
-  Permutation (concat (set_nth l i (nth i l [] ++ [r]))) (r :: concat l).
+Lemma set_nth_length {A} (l : list A) : forall i x, length (set_nth l i x) = length l.
+Proof. induction l as [|y l IH]; intros [|i] x; simpl; auto. Qed.
+
+Lemma nth_error_mid {A} (l1 : list A) a l2 : nth_error (l1 ++ a :: l2) (length l1) = Some a.
+Proof. induction l1; simpl; auto. Qed.
+
+(* an element where the indicator f is 0 / positive *)
+Lemma sumf_lt_length {A} (f : A -> nat) (l : list A) : sumf f l < length l ->
+  exists i a, nth_error l i = Some a /\ f a = 0.
 Proof.
-  induction l as [|x l IH]; intros i r H; [simpl in H; lia|].
-  destruct i as [|i]; simpl in *.
-  - rewrite <- app_assoc. simpl. apply Permutation_sym. apply Permutation_middle.
-  - apply Permutation_trans with (x ++ r :: concat l).
-    + apply Permutation_app_head. apply IH. lia.
-    + apply Permutation_sym. apply Permutation_middle.
+  induction l as [|y l IH]; intros H; [cbn in H; lia|].
+  rewrite sumf_cons in H. simpl in H. destruct (f y) eqn:E.
+  - exists 0, y. auto.
+  - destruct IH as [i [a [H1 H2]]]; [lia|]. exists (S i), a. auto.
 Qed.
 
-Lemma pstep_perm s a : Permutation (pall (pstep s a)) (pall s).
+Lemma sumf_pos {A} (f : A -> nat) (l : list A) : 0 < sumf f l -> exists i a, nth_error l i = Some a /\ 0 < f a.
 Proof.
-  unfold pall. destruct a as [i|w|w]; simpl.
-  - destruct (nth i (p_inputs s) []) as [|r rest] eqn:E; [reflexivity|]. simpl.
-    pose proof (concat_set_nth_cons (p_inputs s) i r rest E) as HP.
-    rewrite <- !app_assoc. simpl.
-    apply Permutation_trans with (r :: concat (set_nth (p_inputs s) i rest) ++ p_queue s ++ concat (p_flight s) ++ p_out s).
-    + rewrite !app_assoc. rewrite <- !app_assoc.
-      apply Permutation_sym.
-      apply Permutation_trans with (concat (set_nth (p_inputs s) i rest) ++ r :: p_queue s ++ concat (p_flight s) ++ p_out s).
-      * apply Permutation_middle.
-      * apply Permutation_app_head.
-        apply Permutation_trans with (p_queue s ++ r :: concat (p_flight s) ++ p_out s).
-        -- apply Permutation_middle.
-        -- reflexivity.
-    + change (r :: concat (set_nth (p_inputs s) i rest) ++ p_queue s ++ concat (p_flight s) ++ p_out s)
-        with ((r :: concat (set_nth (p_inputs s) i rest)) ++ p_queue s ++ concat (p_flight s) ++ p_out s).
-      apply Permutation_app_tail. exact HP.
-  - destruct (p_queue s) as [|r q] eqn:E; [rewrite E; reflexivity|].
-    destruct (Nat.ltb w (length (p_flight s))) eqn:EW; [|rewrite E; reflexivity].
-    apply PeanoNat.Nat.ltb_lt in EW. simpl.
-    apply Permutation_app_head.
-    pose proof (concat_set_nth_snoc (p_flight s) w r EW) as HP.
-    apply Permutation_trans with (q ++ (r :: concat (p_flight s)) ++ p_out s).
-    + apply Permutation_app_head. apply Permutation_app_tail. exact HP.
-    + simpl. apply Permutation_sym. apply Permutation_middle.
-  - destruct (nth w (p_flight s) []) as [|r rest] eqn:E; [reflexivity|]. simpl.
-    pose proof (concat_set_nth_cons (p_flight s) w r rest E) as HP.
-    apply Permutation_app_head. apply Permutation_app_head.
-    apply Permutation_trans with (r :: concat (set_nth (p_flight s) w rest) ++ p_out s).
-    + rewrite app_assoc. apply Permutation_sym.
-      apply Permutation_trans with ((concat (set_nth (p_flight s) w rest) ++ p_out s) ++ [r]).
-      * apply Permutation_cons_append.
-      * rewrite <- app_assoc. reflexivity.
-    + change (r :: concat (set_nth (p_flight s) w rest) ++ p_out s) with ((r :: concat (set_nth (p_flight s) w rest)) ++ p_out s).
-      apply Permutation_app_tail. exact HP.
+  induction l as [|y l IH]; intros H; [cbn in H; lia|].
+  rewrite sumf_cons in H. destruct (f y) eqn:E.
+  - destruct IH as [i [a [H1 H2]]]; [lia|]. exists (S i), a. auto.
+  - exists 0, y. split; [reflexivity|lia].
 Qed.
 
-Lemma prun_perm sched : forall s, Permutation (pall (prun s sched)) (pall s).
+Lemma sumf_full {A} (f : A -> nat) (l : list A) : (forall a, f a <= 1) -> sumf f l = length l ->
+  forall a, In a l -> f a = 1.
 Proof.
-  induction sched as [|a sched IH]; intros s; [reflexivity|].
-  simpl. eapply Permutation_trans; [apply IH|apply pstep_perm].
+  intros Hf. induction l as [|y l IH]; intros H a Hin; [destruct Hin|].
+  rewrite sumf_cons in H. simpl in H.
+  assert (sumf f l <= length l).
+  { clear - Hf. induction l as [|z l IH]; [cbn; lia|]. rewrite sumf_cons. simpl. specialize (Hf z). lia. }
+  pose proof (Hf y). destruct Hin as [->|Hin]; [lia|]. apply IH; [lia|exact Hin].
 Qed.
 
-Lemma concat_all_nil {A} (l : list (list A)) : Forall (fun x => x = []) l -> concat l = [].
-Proof. intros H. induction H as [|x l Hx H IH]; [reflexivity|]. subst. simpl. exact IH. Qed.
-
-Lemma concat_repeat_nil {A} n : concat (repeat (@nil A) n) = [].
-Proof. induction n; simpl; auto. Qed.
-
-Lemma pall_init inputs jobs : pall (pinit inputs jobs) = concat inputs.
-Proof. unfold pall, pinit. simpl. rewrite concat_repeat_nil. simpl. apply app_nil_r. Qed.
-
-(* every record of every input is emitted exactly once, whatever the schedule,
-   the number of workers and the number of inputs; stdout is a concatenation of
-   whole records (emission is atomic under the mutex) *)
-Theorem parallel_exactly_once inputs jobs sched :
-  pdone (prun (pinit inputs jobs) sched) ->
-  Permutation (p_out (prun (pinit inputs jobs) sched)) (concat inputs) /\
-  pbytes (prun (pinit inputs jobs) sched) = concat (p_out (prun (pinit inputs jobs) sched)).
+Lemma forallb_false_nth {A} (p : A -> bool) (l : list A) : forallb p l = false ->
+  exists i a, nth_error l i = Some a /\ p a = false.
 Proof.
-  intros [H1 [H2 H3]]. split; [|reflexivity].
-  pose proof (prun_perm sched (pinit inputs jobs)) as HP.
-  rewrite pall_init in HP.
-  unfold pall in HP. rewrite (concat_all_nil _ H1), H2, (concat_all_nil _ H3) in HP.
-  simpl in HP. exact HP.
+  induction l as [|y l IH]; intros H; [discriminate|]. simpl in H.
+  destruct (p y) eqn:E.
+  - destruct (IH H) as [i [a [H1 H2]]]. exists (S i), a. auto.
+  - exists 0, y. auto.
 Qed.
 
-(* nothing is ever emitted that was not read, and nothing twice, at any time *)
-Theorem parallel_never_invents inputs jobs sched :
-  exists rest, Permutation (p_out (prun (pinit inputs jobs) sched) ++ rest) (concat inputs).
+Lemma repeat_snoc {A} (x : A) n : repeat x n ++ [x] = repeat x (S n).
+Proof. simpl. rewrite repeat_cons. reflexivity. Qed.
+
+Lemma sumf_repeat {A} (f : A -> nat) x n : sumf f (repeat x n) = n * f x.
+Proof. induction n; [reflexivity|]. simpl repeat. rewrite sumf_cons, IHn. lia. Qed.
+
+Lemma forallb_repeat {A} (p : A -> bool) x n : p x = true -> forallb p (repeat x n) = true.
+Proof. intros H. induction n; simpl; [reflexivity|]. rewrite H, IHn. reflexivity. Qed.
+
+(* ------------------------------------------------------------ taking a step apart *)
+Ltac step_inv H :=
+  unfold pstep, with_worker, wp_join_swaps, wp_out_locked in H; cbn [andb orb] in H;
+  repeat (let E := fresh "E" in
+          match type of H with
+          | match ?x with _ => _ end = Some _ => destruct x eqn:E; try discriminate H
+          end);
+  match type of H with Some _ = Some ?y => injection H as H; first [subst y | idtac] end.
+
+(* the worker list around the worker that moved *)
+Ltac wsplit :=
+  match goal with
+  | E : nth_error ?l ?i = Some ?a |- _ =>
+    let l1 := fresh "l1" in let l2 := fresh "l2" in let El := fresh "El" in let Hs := fresh "Hset" in
+    destruct (set_nth_split l i a E) as [l1 [l2 [El Hs]]]; clear E; subst l; try rewrite !Hs in *; clear Hs
+  end.
+
+(* ------------------------------------------------------------ the protocol invariant *)
+Definition nonempty (r : rec) : Prop := r <> [].
+Definition ind_none (wk : worker) : nat := match w_in wk with None => 1 | Some _ => 0 end.
+Definition nm (r : rec) : nat := if is_nil r then 1 else 0.
+
+Lemma ind_none_none a b c d : ind_none (mkw None a b c d) = 1.
+Proof. reflexivity. Qed.
+Lemma ind_none_some r a b c d : ind_none (mkw (Some r) a b c d) = 0.
+Proof. reflexivity. Qed.
+
+(* the queue holds records first, end markers behind them *)
+Fixpoint shape (l : list rec) : bool :=
+  match l with
+  | [] => true
+  | r :: t => if is_nil r then forallb is_nil t else shape t
+  end.
+
+Lemma shape_snoc_any l r : sumf nm l = 0 -> shape (l ++ [r]) = true.
 Proof.
-  pose proof (prun_perm sched (pinit inputs jobs)) as HP.
-  rewrite pall_init in HP.
-  set (s := prun (pinit inputs jobs) sched) in *.
-  exists (concat (p_inputs s) ++ p_queue s ++ concat (p_flight s)).
-  unfold pall in HP.
-  eapply Permutation_trans; [apply Permutation_app_comm|].
-  rewrite <- !app_assoc. exact HP.
+  induction l as [|x l IH]; intros H; simpl.
+  - destruct (is_nil r); reflexivity.
+  - rewrite sumf_cons in H. unfold nm at 1 in H. destruct (is_nil x); [lia|]. apply IH. lia.
 Qed.
 
-(* one input and one worker: the order is kept too *)
-Definition pordered (s : pstate) : list rec :=
-  p_out s ++ nth 0 (p_flight s) [] ++ p_queue s ++ nth 0 (p_inputs s) [].
-
-Lemma pstep_ordered s a : length (p_inputs s) = 1%nat -> length (p_flight s) = 1%nat ->
-  pordered (pstep s a) = pordered s /\ length (p_inputs (pstep s a)) = 1%nat /\ length (p_flight (pstep s a)) = 1%nat.
+Lemma forallb_nil_shape l : forallb is_nil l = true -> shape l = true.
 Proof.
-  intros Hi Hf. destruct s as [ins q fl out]. simpl in Hi, Hf.
-  destruct ins as [|i0 [|? ?]]; try discriminate. destruct fl as [|f0 [|? ?]]; try discriminate.
-  unfold pordered. destruct a as [i|w|w]; simpl.
-  - destruct i as [|i].
-    + simpl. destruct i0 as [|r rest]; [auto|]. simpl. rewrite <- !app_assoc. simpl. auto.
-    + destruct i; simpl; auto.
-  - destruct q as [|r q]; [auto|]. destruct w as [|w]; simpl; [|auto].
-    rewrite <- !app_assoc. simpl. auto.
-  - destruct w as [|w].
-    + simpl. destruct f0 as [|r rest]; [auto|]. simpl. rewrite <- !app_assoc. simpl. auto.
-    + destruct w; simpl; auto.
+  induction l as [|x l IH]; intros H; [reflexivity|]. simpl in *.
+  apply andb_true_iff in H. destruct H as [H1 H2]. rewrite H1. exact H2.
 Qed.
 
-Theorem parallel_single_worker_keeps_order input sched :
-  pdone (prun (pinit [input] 1) sched) -> p_out (prun (pinit [input] 1) sched) = input.
+Lemma shape_snoc_nil l : shape l = true -> shape (l ++ [[]]) = true.
 Proof.
-  intros [H1 [H2 H3]].
-  assert (Hinv : forall sched s, length (p_inputs s) = 1%nat -> length (p_flight s) = 1%nat ->
-            pordered (prun s sched) = pordered s /\ length (p_inputs (prun s sched)) = 1%nat /\ length (p_flight (prun s sched)) = 1%nat).
-  { induction sched0 as [|a sched0 IH]; intros s Hi Hf; [simpl; auto|].
-    simpl. destruct (pstep_ordered s a Hi Hf) as [E1 [E2 E3]].
-    destruct (IH (pstep s a) E2 E3) as [F1 [F2 F3]]. rewrite F1, E1. auto. }
-  destruct (Hinv sched (pinit [input] 1) eq_refl eq_refl) as [E [Li Lf]].
-  set (s := prun (pinit [input] 1) sched) in *.
-  unfold pordered in E. rewrite H2 in E.
-  destruct (p_inputs s) as [|i0 [|? ?]]; try discriminate. destruct (p_flight s) as [|f0 [|? ?]]; try discriminate.
-  inversion H1; subst. inversion H3; subst. simpl in E. rewrite !app_nil_r in E. exact E.
+  induction l as [|x l IH]; intros H; [reflexivity|]. cbn [shape app] in *.
+  destruct (is_nil x); [|apply IH; exact H].
+  rewrite forallb_app. apply andb_true_iff. split; [exact H|reflexivity].
 Qed.
 
+Lemma readers_not_done (rd : list (list rec)) i r todo : nth_error rd i = Some (r :: todo) -> forallb is_nil rd = false.
+Proof.
+  revert i. induction rd as [|x rd IH]; intros [|i] H; simpl in H; try discriminate.
+  - inversion H; subst. reflexivity.
+  - simpl. rewrite (IH i H). apply andb_false_r.
+Qed.
+
+Lemma Forall_set_nth {A} (P : A -> Prop) (l : list A) : forall i x, Forall P l -> P x -> Forall P (set_nth l i x).
+Proof.
+  induction l as [|y l IH]; intros [|i] x H Hx; simpl; auto; inversion H; subst; constructor; auto.
+Qed.
+
+Lemma Forall_nth_error {A} (P : A -> Prop) (l : list A) i a : Forall P l -> nth_error l i = Some a -> P a.
+Proof. intros H E. rewrite Forall_forall in H. apply H. eapply nth_error_In; eauto. Qed.
+
+Definition wk_ok (wk : worker) : Prop :=
+  (w_cdone wk = true -> w_in wk = None /\ w_pin wk = []) /\
+  (w_out wk = ODone -> w_cdone wk = true /\ w_pout wk = []).
+
+Record Inv (N cap : nat) (s : pstate) : Prop := mkInv {
+  inv_len : length (p_workers s) = N;
+  inv_shape : shape (p_live s) = true;
+  inv_count : p_markers s + sumf nm (p_live s) + sumf ind_none (p_workers s) = N;
+  inv_readers_done : p_markers s < N -> forallb is_nil (p_readers s) = true;
+  inv_drained : 0 < sumf ind_none (p_workers s) -> forallb is_nil (p_live s) = true;
+  inv_mstr : p_mstr s = [];
+  inv_cap : length (p_live s) + length (p_free s) = cap;
+  inv_rne : Forall (Forall nonempty) (p_readers s);
+  inv_wk : Forall wk_ok (p_workers s) }.
+
+Section Proofs.
+  Variable enc : rec -> list Z.
+  Notation pstep := (pstep enc).
+
+  Lemma inv_init inputs N cap : Forall (Forall nonempty) inputs -> Inv N cap (pinit inputs N cap).
+  Proof.
+    intros H. constructor; unfold pinit; cbn [p_workers p_live p_markers p_readers p_mstr p_free].
+    - apply repeat_length.
+    - reflexivity.
+    - rewrite sumf_repeat. cbn. lia.
+    - lia.
+    - rewrite sumf_repeat. cbn. lia.
+    - reflexivity.
+    - simpl. apply repeat_length.
+    - exact H.
+    - apply Forall_forall. intros wk Hin. apply repeat_spec in Hin. subst wk. split; simpl; intros; discriminate.
+  Qed.
+
+  Lemma sumf_set_nth {A} (f : A -> nat) (l : list A) i a x : nth_error l i = Some a ->
+    sumf f (set_nth l i x) + f a = sumf f l + f x.
+  Proof.
+    intros E. destruct (set_nth_split l i a E) as [l1 [l2 [El Hs]]]. rewrite Hs, El.
+    rewrite !sumf_app, !sumf_cons. lia.
+  Qed.
+
+  Lemma sumf_set_nth_ex {A} (f : A -> nat) (l : list A) i a : nth_error l i = Some a ->
+    exists rest, sumf f l = rest + f a /\ forall x, sumf f (set_nth l i x) = rest + f x.
+  Proof.
+    intros E. destruct (set_nth_split l i a E) as [l1 [l2 [El Hs]]].
+    exists (sumf f l1 + sumf f l2). split; [|intros x; rewrite Hs]; [rewrite El|]; rewrite !sumf_app, !sumf_cons; lia.
+  Qed.
+
+  Lemma Forall_set_nth_at {A} (P : A -> Prop) (l : list A) i a x : nth_error l i = Some a ->
+    Forall P l -> (P a -> P x) -> Forall P (set_nth l i x).
+  Proof.
+    intros E H Hx. apply Forall_set_nth; [exact H|]. apply Hx. eapply Forall_nth_error; eauto.
+  Qed.
+
+  (* a step of a child or of an output thread: only that worker, the mutex, stdout and the history change *)
+  Lemma inv_replace_worker N cap s w wk wk' mx so em :
+    Inv N cap s -> nth_error (p_workers s) w = Some wk -> w_in wk' = w_in wk -> (wk_ok wk -> wk_ok wk') ->
+    Inv N cap (mkp (p_readers s) (p_live s) (p_free s) (p_markers s) (p_mstr s) (set_nth (p_workers s) w wk') mx so em).
+  Proof.
+    intros [I1 I2 I3 I4 I5 I6 I7 I8 I9] E Hin Hok.
+    assert (Hs : sumf ind_none (set_nth (p_workers s) w wk') = sumf ind_none (p_workers s)).
+    { pose proof (sumf_set_nth ind_none _ _ _ wk' E) as HS. unfold ind_none at 2 4 in HS. rewrite Hin in HS. lia. }
+    constructor; cbn [p_workers p_live p_markers p_readers p_mstr p_free]; auto.
+    - rewrite set_nth_length. exact I1.
+    - rewrite Hs. exact I3.
+    - rewrite Hs. exact I5.
+    - eapply Forall_set_nth_at; eauto.
+  Qed.
+
+  Lemma inv_step N cap s l s' : Inv N cap s -> pstep s l = Some s' -> Inv N cap s'.
+  Proof.
+    intros HI H. pose proof HI as [I1 I2 I3 I4 I5 I6 I7 I8 I9].
+    destruct l as [i| |w|w|w].
+    - (* a reader hands over its next record *)
+      step_inv H.
+      pose proof (readers_not_done _ _ _ _ E) as Hnd.
+      assert (Hmk : p_markers s = N /\ sumf nm (p_live s) = 0 /\ sumf ind_none (p_workers s) = 0).
+      { destruct (Nat.lt_ge_cases (p_markers s) N) as [L|L]; [rewrite (I4 L) in Hnd; discriminate|lia]. }
+      destruct Hmk as [M1 [M2 M3]].
+      assert (Hr : nonempty r).
+      { pose proof (Forall_nth_error _ _ _ _ I8 E) as HF. inversion HF; assumption. }
+      constructor; cbn [p_workers p_live p_markers p_readers p_mstr p_free]; auto.
+      + apply shape_snoc_any. exact M2.
+      + rewrite sumf_app, sumf_cons, sumf_nil. unfold nm at 2. destruct r; [congruence|]. simpl. lia.
+      + lia.
+      + lia.
+      + rewrite app_length. simpl in *. lia.
+      + eapply Forall_set_nth_at; eauto. intros HF. inversion HF; assumption.
+    - (* Join queues an end marker *)
+      step_inv H.
+      constructor; cbn [p_workers p_live p_markers p_readers p_mstr p_free]; auto.
+      + rewrite I6. apply shape_snoc_nil. exact I2.
+      + rewrite I6, sumf_app, sumf_cons, sumf_nil. cbn. lia.
+      + rewrite I6, forallb_app. intros Hd. apply andb_true_iff. split; [apply I5; exact Hd|reflexivity].
+      + rewrite app_length. simpl in *. lia.
+    - (* an input thread takes the next item *)
+      step_inv H.
+      assert (H0 : ind_none w0 = 0) by (unfold ind_none; rewrite E0; reflexivity).
+      assert (HS : forall wk', sumf ind_none (set_nth (p_workers s) w wk') = sumf ind_none (p_workers s) + ind_none wk').
+      { intros wk'. pose proof (sumf_set_nth ind_none _ _ _ wk' E) as X. rewrite H0 in X. lia. }
+      assert (Hok0 : wk_ok w0) by (eapply Forall_nth_error; eauto).
+      rewrite sumf_cons in I3. cbn [shape] in I2. unfold nm at 1 in I3.
+      constructor; cbn [p_workers p_live p_markers p_readers p_mstr p_free]; auto.
+      + rewrite set_nth_length. exact I1.
+      + destruct (is_nil r0); [apply forallb_nil_shape; exact I2|exact I2].
+      + rewrite HS. destruct (is_nil r0); [rewrite ind_none_none|rewrite ind_none_some]; lia.
+      + rewrite HS. intros Hd. destruct (is_nil r0) eqn:En.
+        * exact I2.
+        * rewrite ind_none_some in Hd.
+          assert (Hd' : 0 < sumf ind_none (p_workers s)) by lia.
+          apply I5 in Hd'. cbn [forallb] in Hd'. rewrite En in Hd'. discriminate.
+      + rewrite app_length. simpl in *. lia.
+      + eapply Forall_set_nth_at; eauto. intros _. destruct Hok0 as [K1 K2].
+        destruct (is_nil r0); split; simpl; try exact K2; intros Hc; apply K1 in Hc; destruct Hc as [Hc _]; congruence.
+    - (* a child *)
+      step_inv H.
+      + eapply inv_replace_worker; eauto. intros [K1 K2]. split; simpl; auto.
+        intros Ho. apply K2 in Ho. destruct Ho; congruence.
+      + eapply inv_replace_worker; eauto. intros [K1 K2]. split; simpl; [discriminate|].
+        intros Ho. apply K2 in Ho. destruct Ho; congruence.
+    - (* an output thread *)
+      step_inv H; (eapply inv_replace_worker; eauto; intros [K1 K2]; split; simpl; auto; try discriminate).
+  Qed.
+
+  (* ------------------------------------------------------------ the mutex keeps records apart *)
+  Definition nwr (wk : worker) : nat := match w_out wk with OWrite _ _ => 1 | _ => 0 end.
+  Definition wrest (wk : worker) : list Z := match w_out wk with OWrite _ rest => rest | _ => [] end.
+
+  (* at most one output thread is writing, exactly when the mutex is held; what is on
+     stdout plus what the writer still has to write is the encoding of the records begun *)
+  Definition MInv (s : pstate) : Prop :=
+    sumf nwr (p_workers s) = (if p_mutex s then 1 else 0) /\
+    p_stdout s ++ concat (map wrest (p_workers s)) = concat (map enc (p_emitted s)).
+
+  Lemma nwr0_wrest l : sumf nwr l = 0 -> concat (map wrest l) = [].
+  Proof.
+    induction l as [|wk l IH]; intros H; [reflexivity|]. rewrite sumf_cons in H.
+    simpl. rewrite IH by lia. unfold nwr in H. unfold wrest. destruct (w_out wk); try reflexivity. lia.
+  Qed.
+
+  Lemma minv_same_out s w wk wk' rd lv fr mk ms :
+    MInv s -> nth_error (p_workers s) w = Some wk -> w_out wk' = w_out wk ->
+    MInv (mkp rd lv fr mk ms (set_nth (p_workers s) w wk') (p_mutex s) (p_stdout s) (p_emitted s)).
+  Proof.
+    intros [M1 M2] E Ho. destruct (set_nth_split _ _ _ E) as [l1 [l2 [El Hs]]].
+    unfold MInv. cbn [p_workers p_mutex p_stdout p_emitted]. rewrite Hs. rewrite El in M1, M2.
+    rewrite !sumf_app, !sumf_cons in *. rewrite !map_app in *. cbn [map] in *. rewrite !concat_app in *. cbn [concat] in *.
+    unfold nwr at 2, wrest at 2. unfold nwr at 2 in M1. unfold wrest at 2 in M2. rewrite Ho. split; assumption.
+  Qed.
+
+  Lemma minv_step s l s' : MInv s -> pstep s l = Some s' -> MInv s'.
+  Proof.
+    intros HM H. destruct l as [i| |w|w|w].
+    - step_inv H. exact HM.
+    - step_inv H. exact HM.
+    - step_inv H. eapply (minv_same_out s); eauto. destruct (is_nil r0); reflexivity.
+    - step_inv H; eapply (minv_same_out s); eauto.
+    - destruct HM as [M1 M2]. step_inv H;
+        destruct (set_nth_split _ _ _ E) as [l1 [l2 [El Hs]]]; unfold MInv; cbn [p_workers p_mutex p_stdout p_emitted];
+        rewrite Hs; rewrite El in M1, M2;
+        rewrite !sumf_app, !sumf_cons in *; rewrite !map_app in *; cbn [map] in *; rewrite !concat_app in *; cbn [concat] in *;
+        unfold nwr at 2, wrest at 2; unfold nwr at 2 in M1; unfold wrest at 2 in M2; rewrite E0 in M1, M2; cbn [w_out].
+      + (* end of the child's output *) split; assumption.
+      + (* a record read *) split; assumption.
+      + (* the mutex is taken *)
+        assert (Z1 : sumf nwr l1 = 0) by lia. assert (Z2 : sumf nwr l2 = 0) by lia.
+        rewrite (nwr0_wrest _ Z1), (nwr0_wrest _ Z2) in *. split; [lia|].
+        rewrite !app_nil_r in *. cbn [app] in *. rewrite M2. reflexivity.
+      + (* the mutex is released *)
+        destruct (p_mutex s); [|lia]. split; [lia|exact M2].
+      + (* one byte *)
+        destruct (p_mutex s); [|lia].
+        assert (Z1 : sumf nwr l1 = 0) by lia. assert (Z2 : sumf nwr l2 = 0) by lia.
+        rewrite (nwr0_wrest _ Z1), (nwr0_wrest _ Z2) in *. split; [lia|].
+        rewrite <- M2. cbn [app]. rewrite !app_nil_r. rewrite <- app_assoc. reflexivity.
+  Qed.
+
+  (* ------------------------------------------------------------ no record is lost, invented or doubled *)
+  Definition rec_eq_dec : forall a b : rec, {a = b} + {a <> b} := list_eq_dec Z.eq_dec.
+  Definition cnt (x : rec) (l : list rec) : nat := count_occ rec_eq_dec l x.
+
+  Lemma cnt_app x a b : cnt x (a ++ b) = cnt x a + cnt x b.
+  Proof. apply count_occ_app. Qed.
+  Lemma cnt_cons x r l : cnt x (r :: l) = cnt x [r] + cnt x l.
+  Proof. change (r :: l) with ([r] ++ l). apply cnt_app. Qed.
+  Lemma cnt_nil x : cnt x [] = 0.
+  Proof. reflexivity. Qed.
+
+  Definition is_rec (r : rec) : bool := negb (is_nil r).
+  (* records a worker holds that have not reached the mutex yet *)
+  Definition wrecs (wk : worker) : list rec :=
+    w_pin wk ++ w_pout wk ++ match w_out wk with OLock r => [r] | _ => [] end.
+
+  Definition CInv (inputs : list (list rec)) (s : pstate) : Prop :=
+    forall x, cnt x (concat (p_readers s)) + cnt x (filter is_rec (p_live s)) +
+              sumf (fun wk => cnt x (wrecs wk)) (p_workers s) + cnt x (p_emitted s) = cnt x (concat inputs).
+
+  Lemma cnt_concat_set_nth x (rd : list (list rec)) i r todo : nth_error rd i = Some (r :: todo) ->
+    cnt x (concat rd) = cnt x (concat (set_nth rd i todo)) + cnt x [r].
+  Proof.
+    intros E. destruct (set_nth_split _ _ _ E) as [l1 [l2 [El Hs]]]. rewrite Hs, El.
+    rewrite !concat_app. cbn [concat]. rewrite !cnt_app. rewrite (cnt_cons x r todo). lia.
+  Qed.
+
+  Lemma cinv_step inputs N cap s l s' : Inv N cap s -> CInv inputs s -> pstep s l = Some s' -> CInv inputs s'.
+  Proof.
+    intros HI HC H x. specialize (HC x). pose proof HI as [I1 I2 I3 I4 I5 I6 I7 I8 I9].
+    destruct l as [i| |w|w|w].
+    - step_inv H. cbn [p_workers p_live p_readers p_emitted].
+      assert (Hr : nonempty r).
+      { pose proof (Forall_nth_error _ _ _ _ I8 E) as HF. inversion HF; assumption. }
+      rewrite (cnt_concat_set_nth x _ _ _ _ E) in HC.
+      rewrite filter_app, cnt_app. cbn [filter]. unfold is_rec at 2. destruct r; [congruence|]. cbn [is_nil negb]. lia.
+    - step_inv H. cbn [p_workers p_live p_readers p_emitted].
+      rewrite I6, filter_app, cnt_app. cbn. cbn in HC. lia.
+    - step_inv H. cbn [p_workers p_live p_readers p_emitted].
+      cbn [filter] in HC. unfold is_rec at 1 in HC.
+      destruct (sumf_set_nth_ex (fun wk => cnt x (wrecs wk)) _ _ _ E) as [SR [R1 R2]].
+      rewrite R1 in HC. rewrite R2. unfold wrecs in *.
+      destruct (is_nil r0); cbn [negb w_pin w_pout w_out] in *.
+      + lia.
+      + rewrite !cnt_app in *. rewrite (cnt_cons x r0) in HC. lia.
+    - step_inv H; cbn [p_workers p_live p_readers p_emitted];
+        destruct (sumf_set_nth_ex (fun wk => cnt x (wrecs wk)) _ _ _ E) as [SR [R1 R2]];
+        rewrite R1 in HC; rewrite R2; unfold wrecs in *; cbn [w_pin w_pout w_out] in *; rewrite E1 in HC;
+        rewrite !cnt_app in *; rewrite ?cnt_nil in *.
+      + lia.
+      + match goal with E : w_pin _ = ?r :: ?t |- _ => rewrite (cnt_cons x r t) in HC end. lia.
+    - step_inv H; cbn [p_workers p_live p_readers p_emitted];
+        destruct (sumf_set_nth_ex (fun wk => cnt x (wrecs wk)) _ _ _ E) as [SR [R1 R2]];
+        rewrite R1 in HC; rewrite R2; unfold wrecs in *; cbn [w_pin w_pout w_out] in *; rewrite E0 in HC;
+        rewrite !cnt_app in *; rewrite ?cnt_nil in *.
+      + rewrite E1 in HC. rewrite ?cnt_nil in *. lia.
+      + rewrite E1 in HC. match goal with E : w_pout _ = ?r :: ?t |- _ => rewrite (cnt_cons x r t) in HC end. lia.
+      + lia.
+      + lia.
+      + lia.
+  Qed.
+
+  (* ------------------------------------------------------------ every step uses up potential *)
+  Definition c (r : rec) : nat := length (enc r).
+  Definition opot (o : ostate) : nat :=
+    match o with ODone => 0 | ORead => 1 | OLock r => 3 + c r | OWrite _ rest => 2 + length rest end.
+  Definition wpot (wk : worker) : nat :=
+    sumf (fun r => 4 + c r) (w_pin wk) + (if w_cdone wk then 0 else 1) + sumf (fun r => 3 + c r) (w_pout wk) + opot (w_out wk).
+  Definition pmeasure (s : pstate) : nat :=
+    sumf (sumf (fun r => 6 + c r)) (p_readers s) + sumf (fun r => 5 + c r) (p_live s) +
+    p_markers s * (6 + c (p_mstr s)) + sumf wpot (p_workers s).
+
+  Lemma pstep_decreases s l s' : pstep s l = Some s' -> pmeasure s' < pmeasure s.
+  Proof.
+    intros H. unfold pmeasure. destruct l as [i| |w|w|w].
+    - step_inv H. cbn [p_workers p_live p_readers p_markers p_mstr].
+      destruct (sumf_set_nth_ex (sumf (fun r => 6 + c r)) _ _ _ E) as [SR [R1 R2]].
+      rewrite R1, R2. rewrite sumf_cons. rewrite sumf_app, sumf_cons, sumf_nil. lia.
+    - step_inv H. cbn [p_workers p_live p_readers p_markers p_mstr].
+      rewrite sumf_app, sumf_cons, sumf_nil. lia.
+    - step_inv H. cbn [p_workers p_live p_readers p_markers p_mstr].
+      destruct (sumf_set_nth_ex wpot _ _ _ E) as [SR [R1 R2]].
+      rewrite R1, R2. rewrite sumf_cons. unfold wpot.
+      destruct (is_nil r0); cbn [w_pin w_pout w_out w_cdone].
+      + lia.
+      + rewrite sumf_app, sumf_cons, sumf_nil. lia.
+    - step_inv H; cbn [p_workers p_live p_readers p_markers p_mstr];
+        destruct (sumf_set_nth_ex wpot _ _ _ E) as [SR [R1 R2]];
+        rewrite R1, R2; unfold wpot; cbn [w_pin w_pout w_out w_cdone]; rewrite E0, E1.
+      + cbn. lia.
+      + rewrite sumf_cons, sumf_app, sumf_cons, sumf_nil. lia.
+    - step_inv H; cbn [p_workers p_live p_readers p_markers p_mstr];
+        destruct (sumf_set_nth_ex wpot _ _ _ E) as [SR [R1 R2]];
+        rewrite R1, R2; unfold wpot; cbn [w_pin w_pout w_out w_cdone]; rewrite E0; cbn [opot].
+      + rewrite E1, E2. cbn. lia.
+      + rewrite E1. rewrite sumf_cons. lia.
+      + unfold c. lia.
+      + lia.
+      + cbn [length]. lia.
+  Qed.
+
+  (* ------------------------------------------------------------ never stuck before the end *)
+  Lemma enabled_LIn s w wk held r lv :
+    nth_error (p_workers s) w = Some wk -> w_in wk = Some held -> p_live s = r :: lv -> exists s', pstep s (LIn w) = Some s'.
+  Proof. intros E1 E2 E3. unfold ParallelDefs.pstep. rewrite E1, E2, E3. eexists; reflexivity. Qed.
+
+  Lemma workers_with_input N cap s : Inv N cap s -> sumf ind_none (p_workers s) < N ->
+    exists w wk held, nth_error (p_workers s) w = Some wk /\ w_in wk = Some held.
+  Proof.
+    intros HI H. rewrite <- (inv_len _ _ _ HI) in H. destruct (sumf_lt_length _ _ H) as [w [wk [E F]]].
+    exists w, wk. unfold ind_none in F. destruct (w_in wk) as [h|]; [exists h; auto|discriminate].
+  Qed.
+
+  Theorem progress N cap s : 0 < N -> 0 < cap -> Inv N cap s -> MInv s -> pterminated s = false ->
+    exists l s', pstep s l = Some s'.
+  Proof.
+    intros HN Hcap HI [M1 M2] HT. pose proof HI as [I1 I2 I3 I4 I5 I6 I7 I8 I9].
+    destruct (forallb is_nil (p_readers s)) eqn:ER.
+    2:{ (* some reader still has records: it can hand one over, or the queue is full and a worker can take one *)
+      destruct (forallb_false_nth _ _ ER) as [i [todo [E1 E2]]].
+      destruct todo as [|r todo]; [discriminate E2|].
+      assert (Hmk : sumf ind_none (p_workers s) = 0).
+      { destruct (Nat.lt_ge_cases (p_markers s) N) as [L|L]; [discriminate (I4 L)|lia]. }
+      destruct (p_free s) as [|f fr] eqn:EF.
+      - destruct (p_live s) as [|r0 lv] eqn:EL; [simpl in I7; lia|].
+        destruct (workers_with_input N cap s HI) as [w [wk [held [F1 F2]]]]; [lia|].
+        exists (LIn w). eapply enabled_LIn; eauto.
+      - exists (LReader i). unfold ParallelDefs.pstep. rewrite E1, EF. eexists; reflexivity. }
+    destruct (p_markers s) as [|k] eqn:EM.
+    2:{ (* Join still has markers to queue *)
+      destruct (p_free s) as [|f fr] eqn:EF.
+      - destruct (p_live s) as [|r0 lv] eqn:EL; [simpl in I7; lia|].
+        destruct (workers_with_input N cap s HI) as [w [wk [held [F1 F2]]]]; [lia|].
+        exists (LIn w). eapply enabled_LIn; eauto.
+      - exists LMain. unfold ParallelDefs.pstep. rewrite ER, EM, EF. eexists; reflexivity. }
+    destruct (Nat.eq_dec (sumf ind_none (p_workers s)) N) as [ED|ED].
+    2:{ (* an input thread is still running: its marker (or a record) is in the queue *)
+      destruct (workers_with_input N cap s HI) as [w [wk [held [F1 F2]]]]; [lia|].
+      destruct (p_live s) as [|r0 lv] eqn:EL.
+      - rewrite sumf_nil in I3. lia.
+      - exists (LIn w). eapply enabled_LIn; eauto. }
+    (* every input thread has returned *)
+    unfold pterminated in HT. rewrite ER, EM in HT. cbn [Nat.eqb andb] in HT.
+    destruct (forallb_false_nth _ _ HT) as [w [wk [E1 E2]]].
+    assert (Hin : w_in wk = None).
+    { assert (F : ind_none wk = 1).
+      { apply (sumf_full ind_none (p_workers s)).
+        - intros a. unfold ind_none. destruct (w_in a); lia.
+        - lia.
+        - eapply nth_error_In; eauto. }
+      unfold ind_none in F. destruct (w_in wk); [discriminate|reflexivity]. }
+    destruct (w_cdone wk) eqn:EC.
+    2:{ exists (LChild w). unfold ParallelDefs.pstep. rewrite E1, EC. destruct (w_pin wk); [rewrite Hin|]; eexists; reflexivity. }
+    unfold wdone, in_done, out_done in E2. rewrite EC, Hin in E2. cbn [andb] in E2.
+    destruct (w_out wk) as [|r|r rest|] eqn:EO; [| | |discriminate].
+    - exists (LOut w). unfold ParallelDefs.pstep. rewrite E1, EO. destruct (w_pout wk); [rewrite EC|]; eexists; reflexivity.
+    - destruct (p_mutex s) eqn:EX.
+      + (* the mutex is held: its holder can write *)
+        destruct (sumf_pos nwr (p_workers s)) as [j [wk' [G1 G2]]]; [lia|].
+        unfold nwr in G2. destruct (w_out wk') as [| |r' rest'|] eqn:EO'; try lia.
+        exists (LOut j). unfold ParallelDefs.pstep. rewrite G1, EO'. destruct rest'; eexists; reflexivity.
+      + exists (LOut w). unfold ParallelDefs.pstep. rewrite E1, EO, EX. eexists; reflexivity.
+    - exists (LOut w). unfold ParallelDefs.pstep. rewrite E1, EO. destruct rest; eexists; reflexivity.
+  Qed.
+
+  (* ------------------------------------------------------------ all reachable states *)
+  Definition AllInv (inputs : list (list rec)) (N cap : nat) (s : pstate) : Prop :=
+    Inv N cap s /\ MInv s /\ CInv inputs s.
+
+  Lemma sumf_zero {A} (f : A -> nat) (l : list A) : (forall a, In a l -> f a = 0) -> sumf f l = 0.
+  Proof.
+    induction l as [|y l IH]; intros H; [reflexivity|]. rewrite sumf_cons, IH, (H y); auto.
+    - left; reflexivity.
+    - intros a Ha. apply H. right. exact Ha.
+  Qed.
+
+  Lemma all_init inputs N cap : Forall (Forall nonempty) inputs -> AllInv inputs N cap (pinit inputs N cap).
+  Proof.
+    intros H. split; [apply inv_init; exact H|]. split.
+    - unfold MInv, pinit. cbn [p_workers p_mutex p_stdout p_emitted].
+      assert (Z : sumf nwr (repeat worker0 N) = 0) by (rewrite sumf_repeat; cbn; lia).
+      split; [exact Z|]. rewrite (nwr0_wrest _ Z). reflexivity.
+    - intros x. unfold pinit. cbn [p_workers p_live p_readers p_emitted filter].
+      rewrite sumf_repeat. cbn. lia.
+  Qed.
+
+  Lemma all_step inputs N cap s l s' : AllInv inputs N cap s -> pstep s l = Some s' -> AllInv inputs N cap s'.
+  Proof.
+    intros [H1 [H2 H3]] H. split; [eapply inv_step; eauto|]. split; [eapply minv_step; eauto|eapply cinv_step; eauto].
+  Qed.
+
+  Lemma all_reachable inputs N cap s : Forall (Forall nonempty) inputs ->
+    reachable pstep (pinit inputs N cap) s -> AllInv inputs N cap s.
+  Proof.
+    intros H Hr. induction Hr as [|s l s' Hr IH Hs]; [apply all_init; exact H|eapply all_step; eauto].
+  Qed.
+
+  Lemma all_run inputs N cap ls : forall s s', AllInv inputs N cap s -> run pstep s ls = Some s' -> AllInv inputs N cap s'.
+  Proof.
+    induction ls as [|l ls IH]; intros s s' HA H; simpl in H.
+    - inversion H; subst; exact HA.
+    - destruct (pstep s l) as [s1|] eqn:E; [|discriminate]. eapply IH; [|exact H]. eapply all_step; eauto.
+  Qed.
+
+  (* ------------------------------------------------------------ at the end: every record once, whole *)
+  Lemma all_nil_concat {A} (l : list (list A)) : forallb is_nil l = true -> concat l = [].
+  Proof.
+    induction l as [|x l IH]; intros H; [reflexivity|]. simpl in H. apply andb_true_iff in H. destruct H as [H1 H2].
+    destruct x; [|discriminate]. simpl. apply IH. exact H2.
+  Qed.
+
+  Lemma all_nil_filter (l : list rec) : forallb is_nil l = true -> filter is_rec l = [].
+  Proof.
+    induction l as [|x l IH]; intros H; [reflexivity|]. simpl in H. apply andb_true_iff in H. destruct H as [H1 H2].
+    simpl. unfold is_rec at 1. rewrite H1. simpl. apply IH. exact H2.
+  Qed.
+
+  Lemma sumf_In_le {A} (f : A -> nat) (l : list A) a : In a l -> f a <= sumf f l.
+  Proof.
+    induction l as [|y l IH]; intros H; [destruct H|]. rewrite sumf_cons. destruct H as [->|H]; [lia|]. specialize (IH H). lia.
+  Qed.
+
+  Theorem final_output inputs N cap s : 0 < N -> AllInv inputs N cap s -> pterminated s = true ->
+    Permutation (p_emitted s) (concat inputs) /\ p_stdout s = concat (map enc (p_emitted s)) /\ p_mutex s = false.
+  Proof.
+    intros HN [HI [[M1 M2] HC]] HT. pose proof HI as [I1 I2 I3 I4 I5 I6 I7 I8 I9].
+    unfold pterminated in HT. apply andb_true_iff in HT. destruct HT as [HT T3].
+    apply andb_true_iff in HT. destruct HT as [T1 T2].
+    rewrite forallb_forall in T3.
+    assert (Hw : forall wk, In wk (p_workers s) -> w_in wk = None /\ w_out wk = ODone /\ wrecs wk = []).
+    { intros wk Hin. specialize (T3 wk Hin). unfold wdone, in_done, out_done in T3.
+      apply andb_true_iff in T3. destruct T3 as [T3 T5]. apply andb_true_iff in T3. destruct T3 as [T3 T4].
+      pose proof (proj1 (Forall_forall _ _) I9 wk Hin) as [K1 K2].
+      destruct (w_in wk); [discriminate|]. destruct (w_out wk) eqn:EO; try discriminate.
+      split; [reflexivity|]. split; [reflexivity|].
+      destruct (K1 T4) as [_ Kp]. destruct (K2 eq_refl) as [_ Ko]. unfold wrecs. rewrite Kp, Ko, EO. reflexivity. }
+    assert (Z : sumf nwr (p_workers s) = 0).
+    { apply sumf_zero. intros wk Hin. destruct (Hw wk Hin) as [_ [Ho _]]. unfold nwr. rewrite Ho. reflexivity. }
+    assert (Hlive : forallb is_nil (p_live s) = true).
+    { apply I5. destruct (p_workers s) as [|wk l] eqn:EW; [simpl in I1; lia|].
+      pose proof (sumf_In_le ind_none (wk :: l) wk (or_introl eq_refl)) as Hle.
+      destruct (Hw wk (or_introl eq_refl)) as [Hi _]. unfold ind_none at 1 in Hle. rewrite Hi in Hle. lia. }
+    split; [|split].
+    - apply (Permutation_count_occ rec_eq_dec). intros x. specialize (HC x).
+      rewrite (all_nil_concat _ T1), (all_nil_filter _ Hlive) in HC.
+      rewrite sumf_zero in HC.
+      + unfold cnt in HC. simpl in HC. exact HC.
+      + intros wk Hin. destruct (Hw wk Hin) as [_ [_ Hr]]. rewrite Hr. reflexivity.
+    - rewrite (nwr0_wrest _ Z), app_nil_r in M2. exact M2.
+    - rewrite Z in M1. destruct (p_mutex s); [discriminate|reflexivity].
+  Qed.
+
+  (* at every moment: nothing was begun that was not read, nothing twice; stdout is a
+     prefix of the whole records begun so far, in the order the mutex was taken *)
+  Lemma sumf_cnt_concat x (l : list worker) : sumf (fun wk => cnt x (wrecs wk)) l = cnt x (concat (map wrecs l)).
+  Proof.
+    induction l as [|wk l IH]; [reflexivity|]. rewrite sumf_cons, IH. simpl. rewrite cnt_app. reflexivity.
+  Qed.
+
+  Theorem safety inputs N cap s : AllInv inputs N cap s ->
+    exists rest pending, Permutation (p_emitted s ++ rest) (concat inputs) /\
+                         p_stdout s ++ pending = concat (map enc (p_emitted s)).
+  Proof.
+    intros [HI [[M1 M2] HC]].
+    exists (concat (p_readers s) ++ filter is_rec (p_live s) ++ concat (map wrecs (p_workers s))), (concat (map wrest (p_workers s))).
+    split; [|exact M2].
+    apply (Permutation_count_occ rec_eq_dec). intros x. specialize (HC x).
+    rewrite sumf_cnt_concat in HC. fold (cnt x (concat inputs)). fold (cnt x (p_emitted s ++ concat (p_readers s) ++ filter is_rec (p_live s) ++ concat (map wrecs (p_workers s)))).
+    rewrite !cnt_app. lia.
+  Qed.
+
+  (* ------------------------------------------------------------ every schedule ends, and ends well *)
+  Theorem runs_bounded ls s s' : run pstep s ls = Some s' -> length ls + pmeasure s' <= pmeasure s.
+  Proof. apply (measure_bounds_run pstate plabel pstep pmeasure). intros a l b. apply pstep_decreases. Qed.
+
+  Theorem complete_run inputs N cap ls s : 0 < N -> 0 < cap -> Forall (Forall nonempty) inputs ->
+    run pstep (pinit inputs N cap) ls = Some s -> (forall l, pstep s l = None) ->
+    pterminated s = true /\
+    Permutation (p_emitted s) (concat inputs) /\ p_stdout s = concat (map enc (p_emitted s)).
+  Proof.
+    intros HN Hc Hne Hrun Hstuck.
+    assert (HA : AllInv inputs N cap s) by (eapply all_run; [apply all_init; exact Hne|exact Hrun]).
+    destruct (pterminated s) eqn:ET.
+    - split; [reflexivity|]. destruct (final_output inputs N cap s HN HA ET) as [P1 [P2 _]]. auto.
+    - exfalso. destruct HA as [HI [HM HC]].
+      destruct (progress N cap s HN Hc HI HM ET) as [l [s' Hs]]. rewrite Hstuck in Hs. discriminate.
+  Qed.
+
+  (* the end is reachable from every reachable state: any schedule can be continued to it *)
+  Theorem end_reachable inputs N cap : 0 < N -> 0 < cap ->
+    forall n s, pmeasure s <= n -> AllInv inputs N cap s ->
+    exists ls s', run pstep s ls = Some s' /\ pterminated s' = true.
+  Proof.
+    intros HN Hc. induction n as [|n IH]; intros s Hm HA; destruct (pterminated s) eqn:ET;
+      try (exists [], s; split; [reflexivity|exact ET]).
+    - destruct HA as [HI [HM HC]]. destruct (progress N cap s HN Hc HI HM ET) as [l [s' Hs]].
+      apply pstep_decreases in Hs. lia.
+    - pose proof HA as [HI [HM HC]]. destruct (progress N cap s HN Hc HI HM ET) as [l [s1 Hs]].
+      destruct (IH s1) as [ls [s' [R T]]].
+      + apply pstep_decreases in Hs. lia.
+      + eapply all_step; eauto.
+      + exists (l :: ls), s'. split; [simpl; rewrite Hs; exact R|exact T].
+  Qed.
+End Proofs.
+
+(* ------------------------------------------------------------ one input, one worker: the order is kept *)
+Section Order.
+  Variable enc : rec -> list Z.
+  Notation pstep := (pstep enc).
+
+  Definition olock (wk : worker) : list rec := match w_out wk with OLock r => [r] | _ => [] end.
+
+  (* begun ++ about to lock ++ child's stdout ++ child's stdin ++ queue ++ not yet read = the input *)
+  Definition OInv (input : list rec) (s : pstate) : Prop :=
+    exists wk todo, p_workers s = [wk] /\ p_readers s = [todo] /\
+      p_emitted s ++ olock wk ++ w_pout wk ++ w_pin wk ++ filter is_rec (p_live s) ++ todo = input.
+
+  Lemma oinv_step input cap s l s' : Inv 1 cap s -> OInv input s -> pstep s l = Some s' -> OInv input s'.
+  Proof.
+    intros HI [wk [todo [EW [ER HO]]]] H. pose proof HI as [I1 I2 I3 I4 I5 I6 I7 I8 I9].
+    unfold OInv. destruct l as [i| |w|w|w].
+    - step_inv H. cbn [p_workers p_live p_readers p_emitted]. rewrite ER in *.
+      destruct i as [|i]; [|destruct i; discriminate E]. simpl in E. inversion E; subst todo. clear E.
+      exists wk, l0. split; [exact EW|]. split; [reflexivity|].
+      inversion I8 as [|? ? Hr _]; subst. inversion Hr as [|? ? Hr0 _]; subst.
+      rewrite filter_app. cbn [filter]. unfold is_rec at 2. destruct r; [congruence|]. cbn [is_nil negb].
+      try rewrite <- HO. rewrite <- !app_assoc. reflexivity.
+    - step_inv H. cbn [p_workers p_live p_readers p_emitted].
+      exists wk, todo. split; [exact EW|]. split; [exact ER|].
+      rewrite I6, filter_app. cbn. rewrite app_nil_r. exact HO.
+    - step_inv H. cbn [p_workers p_live p_readers p_emitted]. rewrite EW in *.
+      destruct w as [|w]; [|destruct w; discriminate E]. simpl in E. inversion E; subst w0. clear E.
+      cbn [filter] in HO. unfold is_rec at 1 in HO. cbn [set_nth].
+      eexists; exists todo. split; [reflexivity|]. split; [exact ER|].
+      destruct (is_nil r0); cbn [negb w_pin w_pout w_out olock] in *; unfold olock in *; cbn [w_out].
+      + exact HO.
+      + rewrite <- HO. rewrite <- !app_assoc. reflexivity.
+    - step_inv H; cbn [p_workers p_live p_readers p_emitted]; rewrite EW in *;
+        (destruct w as [|w]; [|destruct w; discriminate E]); simpl in E; inversion E; subst w0; clear E; cbn [set_nth];
+        eexists; exists todo; (split; [reflexivity|]); (split; [exact ER|]); unfold olock in *; cbn [w_pin w_pout w_out].
+      + rewrite E1 in HO. exact HO.
+      + rewrite E1 in HO. rewrite <- HO. rewrite <- !app_assoc. reflexivity.
+    - step_inv H; cbn [p_workers p_live p_readers p_emitted]; rewrite EW in *;
+        (destruct w as [|w]; [|destruct w; discriminate E]); simpl in E; inversion E; subst w0; clear E; cbn [set_nth];
+        eexists; exists todo; (split; [reflexivity|]); (split; [exact ER|]); unfold olock in *; cbn [w_pin w_pout w_out];
+        rewrite E0 in HO.
+      + rewrite E1 in HO. exact HO.
+      + rewrite E1 in HO. rewrite <- HO. reflexivity.
+      + rewrite <- HO. rewrite <- !app_assoc. reflexivity.
+      + exact HO.
+      + exact HO.
+  Qed.
+
+  Theorem single_worker_keeps_order input cap s : Forall nonempty input ->
+    reachable pstep (pinit [input] 1 cap) s -> pterminated s = true -> p_emitted s = input.
+  Proof.
+    intros Hne Hr HT.
+    assert (Hin : Forall (Forall nonempty) [input]) by (constructor; [exact Hne|constructor]).
+    assert (HO : OInv input s).
+    { clear HT. induction Hr as [|s l s' Hr IH Hs].
+      - exists worker0, input. split; [reflexivity|]. split; [reflexivity|]. reflexivity.
+      - eapply oinv_step; [|apply IH|exact Hs]. destruct (all_reachable enc [input] 1 cap s Hin Hr) as [X _]. exact X. }
+    pose proof (all_reachable enc [input] 1 cap s Hin Hr) as [HI [HM HC]].
+    destruct HO as [wk [todo [EW [ER HO]]]]. pose proof HI as [I1 I2 I3 I4 I5 I6 I7 I8 I9].
+    unfold pterminated in HT. rewrite ER, EW in HT. cbn [forallb] in HT.
+    apply andb_true_iff in HT. destruct HT as [HT T3]. apply andb_true_iff in HT. destruct HT as [T1 _].
+    rewrite !andb_true_r in *. destruct todo; [|discriminate].
+    unfold wdone, in_done, out_done in T3.
+    apply andb_true_iff in T3. destruct T3 as [T3 T5]. apply andb_true_iff in T3. destruct T3 as [T3 T4].
+    rewrite EW in I9, I5. pose proof (Forall_inv I9) as [K1 K2].
+    destruct (w_in wk) eqn:Ei; [discriminate|]. destruct (w_out wk) eqn:EO; try discriminate.
+    destruct (K1 T4) as [_ Kp]. destruct (K2 eq_refl) as [_ Ko].
+    assert (Hl : forallb is_nil (p_live s) = true).
+    { apply I5. rewrite sumf_cons. unfold ind_none at 1. rewrite Ei. lia. }
+    unfold olock in HO. rewrite EO, Kp, Ko, (all_nil_filter _ Hl) in HO. simpl in HO. rewrite app_nil_r in HO. exact HO.
+  Qed.
+End Order.
 (* ------------------------------------------------------------ the input side *)
 From PP Require Import Warc.WarcDefs Warc.WarcProofs Compress.CompressDefs Compress.CompressProofs.
 
@@ -198,25 +749,65 @@ Proof.
     change (b :: got ++ fbytes f1) with ((b :: got) ++ fbytes f1). rewrite Eg, Ef. apply takeN_dropN.
 Qed.
 
-(* the tool can only complete normally when every input is, byte for byte, a
-   concatenation of CR LF CR LF terminated records: an input cut inside a record
-   (or with garbage between records) makes the tool fail, for every schedule *)
-Theorem parallel_tool_inputs_exact n fuel (inputs_frags : list frags) jobs sched st :
+Lemma trailer_nonempty r : ends_with_trailer r -> nonempty r.
+Proof. intros [x E]. unfold nonempty. intros H. subst r. apply app_eq_nil in H. destruct H as [_ H]. discriminate H. Qed.
+
+(* the tool only gets as far as starting its threads when every input is, byte for
+   byte, a concatenation of CR LF CR LF terminated records: an input cut inside a record
+   (or with garbage between records) makes the tool fail, whatever -j.  The records the
+   reader threads hand over are never empty, so none is taken for an end marker. *)
+Theorem parallel_tool_inputs_exact n fuel (inputs_frags : list frags) jobs st :
   Forall (fun f => detect_magic (takeN kMagicSize (fbytes f)) = None) inputs_frags ->
-  ptool (fun s => read_plain n fuel [s]) (map fbytes inputs_frags) jobs sched = Some st ->
-  exists inputs, st = prun (pinit inputs jobs) sched /\
+  ptool (fun s => read_plain n fuel [s]) (map fbytes inputs_frags) jobs = Some st ->
+  exists inputs, st = pinit inputs jobs jobs /\ Forall (Forall nonempty) inputs /\
     Forall2 (fun f recs => concat recs = fbytes f /\ Forall ends_with_trailer recs) inputs_frags inputs.
 Proof.
   intros Hd H. unfold ptool in H.
   destruct (ptool_inputs (fun s => read_plain n fuel [s]) (map fbytes inputs_frags)) as [inputs|] eqn:E; [|discriminate].
   inversion H; subst. exists inputs. split; [reflexivity|].
   apply ptool_inputs_all in E. clear H.
-  revert inputs E. induction inputs_frags as [|f fs IH]; intros inputs E; simpl in E; inversion E; subst; constructor.
-  - unfold read_plain in H1. destruct (warc_file n fuel [fbytes f]) as [recs|e recs] eqn:EW; [|discriminate].
-    inversion H1; subst.
-    inversion Hd; subst.
-    assert (Hfb : fbytes [fbytes f] = fbytes f) by (unfold fbytes; simpl; apply app_nil_r).
-    destruct (warc_file_success_exact n fuel [fbytes f] y) as [Hc Ht]; [rewrite Hfb; assumption|exact EW|].
-    rewrite Hfb in Hc. auto.
-  - apply IH; [inversion Hd; assumption|assumption].
+  assert (F2 : Forall2 (fun f recs => concat recs = fbytes f /\ Forall ends_with_trailer recs) inputs_frags inputs).
+  { revert inputs E. induction inputs_frags as [|f fs IH]; intros inputs E; simpl in E; inversion E; subst; constructor.
+    - unfold read_plain in H1. destruct (warc_file n fuel [fbytes f]) as [recs|e recs] eqn:EW; [|discriminate].
+      inversion H1; subst.
+      inversion Hd; subst.
+      assert (Hfb : fbytes [fbytes f] = fbytes f) by (unfold fbytes; simpl; apply app_nil_r).
+      destruct (warc_file_success_exact n fuel [fbytes f] y) as [Hc Ht]; [rewrite Hfb; assumption|exact EW|].
+      rewrite Hfb in Hc. auto.
+    - apply IH; [inversion Hd; assumption|assumption]. }
+  split; [|exact F2].
+  clear -F2. induction F2 as [|f recs fs inputs [_ Ht] _ IH]; constructor; [|exact IH].
+  eapply Forall_impl; [|exact Ht]. intros r. apply trailer_nonempty.
+Qed.
+
+(* ------------------------------------------------------------ -z: one gzip member per record *)
+Theorem parallel_gzip_members :
+  forall (world estate : Type) (enew : world -> kind -> estate * world)
+         (ecall : kind -> estate -> Z -> list Z -> N -> cres estate)
+         (member : kind -> list Z -> list Z -> Prop)
+         (EInv : kind -> estate -> list Z -> list Z -> Prop) (epend : estate -> nat),
+    (forall w k, EInv k (fst (enew w k)) [] []) ->
+    ecall_run_contract estate ecall EInv epend ->
+    ecall_finish_contract estate ecall member EInv epend ->
+    forall (w : world) (enc : rec -> list Z),
+      (forall r, exists f0, forall fuel, (f0 <= fuel)%nat -> gz_compress world estate enew ecall fuel w r = FileOk (enc r)) ->
+      forall (inputs : list (list rec)) (N cap : nat) (ls : list plabel) (s : pstate),
+        (0 < N)%nat -> (0 < cap)%nat -> Forall (Forall nonempty) inputs ->
+        run (ParallelDefs.pstep enc) (pinit inputs N cap) ls = Some s -> (forall l, ParallelDefs.pstep enc s l = None) ->
+        pterminated s = true /\
+        exists perm, Permutation perm (concat inputs) /\ p_stdout s = concat (map enc perm) /\
+                     Forall (fun r => member KGz (enc r) r) perm /\
+                     kstream member KGz (p_stdout s) (concat perm).
+Proof.
+  intros world estate enew ecall member EInv epend He0 Hrun Hfin w enc Henc inputs N cap ls s HN Hc Hne Hr Hst.
+  destruct (complete_run enc inputs N cap ls s HN Hc Hne Hr Hst) as [T [P1 P2]].
+  split; [exact T|]. exists (p_emitted s). split; [exact P1|]. split; [exact P2|].
+  assert (Hm : forall r, member KGz (enc r) r).
+  { intros r. destruct (gzcompress_proof world estate enew ecall member EInv epend He0 Hrun Hfin w r) as [f1 [out [H1 H2]]].
+    destruct (Henc r) as [f0 H0].
+    specialize (H1 (Nat.max f0 f1) (Nat.le_max_r _ _)). specialize (H0 (Nat.max f0 f1) (Nat.le_max_l _ _)).
+    rewrite H0 in H1. inversion H1; subst. exact H2. }
+  split.
+  - apply Forall_forall. intros r _. apply Hm.
+  - rewrite P2. clear P1 P2. induction (p_emitted s) as [|r l IH]; simpl; [constructor|]. constructor; [apply Hm|exact IH].
 Qed.
